@@ -537,7 +537,7 @@ def reader_conformance(ctx):
                             continue
                         for name, sch in scheds.items():
                             scs.append({'sid': 'rm-%d' % len(scs), 'kind': 'rmodel', 'S': S, 'rkind': kind, 'npk': npk, 'extra': extra, 'auto': auto,
-                                        'sched': sch, 'schedname': name})
+                                        'sched': sch, 'schedname': name, 'cancel': -1 if len(scs) % 3 else (len(scs) // 3) % (npk + 3)})
     return ('rmodel', scs, '', 'Mon_Reader')
 
 
